@@ -803,10 +803,19 @@ class NumpyModel:
         return vec(lambda u: Guard("isnan", u) if not u.is_const() else False, x)
 
     def np_logical_and(self, a, b):
+        if isinstance(a, Mask) and isinstance(b, Mask):
+            return Mask([_gand(p, q) for p, q in zip(a.conds, b.conds)])
         return vec2(lambda p, q: _gand(p, q), a, b)
 
     def np_logical_or(self, a, b):
+        if isinstance(a, Mask) and isinstance(b, Mask):
+            return Mask([_gor(p, q) for p, q in zip(a.conds, b.conds)])
         return vec2(lambda p, q: _gor(p, q), a, b)
+
+    def np_logical_not(self, a):
+        if isinstance(a, Mask):
+            return Mask([c.negate() for c in a.conds])
+        raise Unsupported("logical_not")
 
     def np_clip(self, a, lo=None, hi=None, out=None, **kw):
         lo = kw.get("a_min", kw.get("min", lo))
